@@ -616,6 +616,11 @@ def subscript(interp, base: V, idx: V, node) -> Optional[V]:
         if base.ext == "sparse":
             return Term("spitem", [_freeze_sparse(base), idx])
         if base.ext == "ndarray":
+            dims = base.attrs.get("dims")
+            if dims is not None and isinstance(idx, Grid) and idx.ndim == 1 and isinstance(idx.elem, Num) and len(dims.items_p) == 2:
+                c = interp.fresh_idx("c")
+                return Grid(idx.dims + [[(c, dims.items_p[1])]],
+                            Num(Poly.app("arrat", f"arr#{base.uid}", idx.elem.p, Poly.atom(c))))
             return Term("arritem", [Const(base.uid), idx], {"arr": base})
         if base.cls is not None:
             gi = base.cls.find_method("__getitem__")
@@ -677,9 +682,7 @@ def grid_subscript(interp, g: Grid, idx: V, node) -> V:
             if len(d) == 1:
                 elem = subst(elem, {d[0][0]: i})
             else:
-                sub = _decompose(i, d)
-                if sub is None:
-                    return Top(f"integer index {i.pretty()} into product dimension")
+                sub = _decompose(i, d, _known_extents(interp))
                 elem = subst(elem, sub)
             k += 1
             continue
@@ -727,14 +730,11 @@ def grid_subscript(interp, g: Grid, idx: V, node) -> V:
                 k += 1
                 continue
             if isinstance(it.elem, Num):
-                sub = _decompose(it.elem.p, d)
-                if sub is not None:
-                    elem = subst(elem, sub)
-                    out_dims.extend(it.dims)
-                    k += 1
-                    continue
-                # flat index into a product dimension: keep symbolic
-                return Term("gather", [g, it])
+                sub = _decompose(it.elem.p, d, _known_extents(interp, it.dims))
+                elem = subst(elem, sub)
+                out_dims.extend(it.dims)
+                k += 1
+                continue
             return Term("gather", [g, it])
         if isinstance(it, ListV):
             gi = to_grid(interp, it)
@@ -766,39 +766,57 @@ def _resolve_pw_scalar(interp, el):
     return el
 
 
-def _decompose(i: Poly, d) -> Optional[dict]:
-    """flat index polynomial into a product dimension [(idx, ext)...] -> substitution of the axis indices, when the
-    polynomial has the shape sum(coef_k * part_k) with coef_k = product of minor extents"""
-    stride = Poly.const(1)
-    strides = []
-    for a, e in reversed(d):
-        strides.append((a, e, stride))
-        stride = stride * e
-    strides.reverse()
-    rest = i
+def _known_extents(interp, extra_dims=None) -> dict:
+    known = {}
+    for fr in interp.frames:
+        if fr.kind == "loop" and fr.idx is not None:
+            known[fr.idx] = fr.extent
+    for d in (extra_dims or []):
+        for a, e in d:
+            known[a] = e
+    return known
+
+
+def _decompose(i: Poly, d, known=None) -> Optional[dict]:
+    """flat index polynomial into a product dimension [(idx, ext)...] (major -> minor): mixed-radix digits.
+    F = Q*e + R with R provably in [0, e) (an index atom whose extent is e, a constant below e, or 0) gives digit R and
+    carries Q; otherwise the digit is the symbolic mod(F, e) and the carry div(F, e)."""
+    known = known or {}
     sub = {}
-    for a, e, st in strides:
-        if st == Poly.const(1):
-            sub[a] = rest
-            rest = Poly.const(0)
+    F = i
+    for k in range(len(d) - 1, -1, -1):
+        a, e = d[k]
+        if k == 0:
+            sub[a] = F
+            break
+        Q = Poly()
+        R = Poly()
+        for m, c in F.terms.items():
+            term = Poly({m: c})
+            quo = term / e
+            ok = all(e2 >= 0 and e2.denominator == 1 for mm in quo.terms for _, e2 in mm) and \
+                all(cc.denominator == 1 for cc in quo.terms.values())
+            if ok:
+                Q = Q + quo
+            else:
+                R = R + term
+        in_range = False
+        if R.is_zero():
+            in_range = True
+        elif R.is_monomial():
+            c, atoms = R.single_term()
+            if c == 1 and len(atoms) == 1:
+                (ra, re_), = atoms.items()
+                if re_ == 1 and ra in known and known[ra] == e:
+                    in_range = True
+            if not atoms and e.is_const() and 0 <= c < e.as_const():
+                in_range = True
+        if in_range:
+            sub[a] = R
+            F = Q
         else:
-            # find the part of `rest` divisible by st
-            q = Poly()
-            r = Poly()
-            for m, c in rest.terms.items():
-                term = Poly({m: c})
-                quo = term / st
-                if all(ee > 0 or True for _, ee in ()):
-                    pass
-                ok = all(e2 >= 0 for mm in quo.terms for _, e2 in mm) and all(cc.denominator == 1 for cc in quo.terms.values())
-                if ok:
-                    q = q + quo
-                else:
-                    r = r + term
-            sub[a] = q
-            rest = r
-    if not rest.is_zero():
-        return None
+            sub[a] = Poly.app("mod", F, e)
+            F = Poly.app("div", F, e)
     return sub
 
 
